@@ -165,7 +165,6 @@ Proof.
         -- rewrite <- app_assoc. apply dec_bytes_opt; auto. rewrite !blen_app in Hb. lia.
     + (* id *)
       unfold enc_one in *. rewrite Hty in *. cbn [enc_val canon_val] in *. cbv zeta in *.
-      apply andb_true_iff in Hcan. destruct Hcan as [_ Hcan].
       destruct fuel as [|f]; [fuel_tac Hfuel|].
       exists f. split; [fuel_tac Hfuel|].
       rewrite (occ_step f cur (length pre) d 2 _ rest (VBytes b) Hfn H28 H24 Hfind).
